@@ -224,9 +224,12 @@ def map_nested_value(func: Callable, value: Any) -> Any:
         # which exists for subscripted generic objects) that haven't made it to the mapped value.
         # Dataclasses with __slots__ have no __dict__.
         if hasattr(value, "__dict__"):
-            for key in set(value.__dict__.keys()) - set(mapped_value.__dict__.keys()):
-                # This syntax is frozen dataclass compatible.
-                mapped_value.__dict__[key] = value.__dict__[key]
+            # Keep the original insertion order (not set order), so that the mapped value pickles
+            # and hashes the same way in every process.
+            for key in value.__dict__:
+                if key not in mapped_value.__dict__:
+                    # This syntax is frozen dataclass compatible.
+                    mapped_value.__dict__[key] = value.__dict__[key]
         return mapped_value
 
     else:
